@@ -6,32 +6,34 @@ import PS.Model.Parse
 namespace PS.C15
 open PS TyExpr
 
+variable {sx : Bool}
+
 /-! ## unfolding the token-level machine -/
 
-theorem loopT_nil (st : St) : loopT [] st = .ok st := by simp [loopT]
+theorem loopT_nil (st : St) : loopT sx [] st = .ok st := by simp [loopT]
 
-theorem loopT_cons_ok {t : Tok} {ts : List Tok} {st st' : St} (h : stepT t st = .ok st') :
-    loopT (t :: ts) st = loopT ts st' := by
+theorem loopT_cons_ok {t : Tok} {ts : List Tok} {st st' : St} (h : stepT sx t st = .ok st') :
+    loopT sx (t :: ts) st = loopT sx ts st' := by
   simp [loopT, h]
 
-theorem loopT_cons_err {t : Tok} {ts : List Tok} {st : St} {e : Err} (h : stepT t st = .error e) :
-    loopT (t :: ts) st = .error e := by
+theorem loopT_cons_err {t : Tok} {ts : List Tok} {st : St} {e : Err} (h : stepT sx t st = .error e) :
+    loopT sx (t :: ts) st = .error e := by
   simp [loopT, h]
 
-theorem loopT_append_ok {a b : List Tok} {st st' : St} (h : loopT a st = .ok st') :
-    loopT (a ++ b) st = loopT b st' := by
+theorem loopT_append_ok {a b : List Tok} {st st' : St} (h : loopT sx a st = .ok st') :
+    loopT sx (a ++ b) st = loopT sx b st' := by
   induction a generalizing st with
   | nil => simp [loopT_nil] at h; subst h; rfl
   | cons t ts ih =>
-    cases hs : stepT t st with
+    cases hs : stepT sx t st with
     | error e => rw [loopT_cons_err hs] at h; cases h
     | ok st1 =>
       rw [loopT_cons_ok hs] at h
       rw [List.cons_append, loopT_cons_ok hs]
       exact ih h
 
-theorem autoTypeToks_ok {ts : List Tok} {st : St} (h : loopT ts {} = .ok st) :
-    autoTypeToks ts = finish st := by
+theorem autoTypeToks_ok {ts : List Tok} {st : St} (h : loopT sx ts {} = .ok st) :
+    autoTypeToks sx ts = finish sx st := by
   simp [autoTypeToks, h]
 
 def push (t : TyO) (st : St) : St := { st with stack := t :: st.stack }
@@ -40,24 +42,24 @@ def push (t : TyO) (st : St) : St := { st with stack := t :: st.stack }
     operands stacked -/
 def Pre (st : St) : Prop := st.orFlag = -1 ∧ st.lastInfix = st.stack.length
 
-theorem stepT_name (w : Str) (st : St) : stepT (.node (.name w) []) st = step .none w (.error .fuel) st := by
+theorem stepT_name (w : Str) (st : St) : stepT sx (.node (.name w) []) st = step sx .none w (.error .fuel) st := by
   simp [stepT, kindOf]
-theorem stepT_pvar (w : Str) (st : St) : stepT (.node (.pvar w) []) st = step .poly w (.error .fuel) st := by
+theorem stepT_pvar (w : Str) (st : St) : stepT sx (.node (.pvar w) []) st = step sx .poly w (.error .fuel) st := by
   simp [stepT, kindOf]
-theorem stepT_op (w : Str) (st : St) : stepT (.node (.op w) []) st = step .infx w (.error .fuel) st := by
+theorem stepT_op (w : Str) (st : St) : stepT sx (.node (.op w) []) st = step sx .infx w (.error .fuel) st := by
   simp [stepT, kindOf]
-theorem stepT_bar (st : St) : stepT (.node .bar []) st = step .or [] (.error .fuel) st := by
+theorem stepT_bar (st : St) : stepT sx (.node .bar []) st = step sx .or [] (.error .fuel) st := by
   simp [stepT, kindOf]
-theorem stepT_paren (ks : List Tok) (st : St) : stepT (.node .paren ks) st = step .paren [] (autoTypeToks ks) st := by
+theorem stepT_paren (ks : List Tok) (st : St) : stepT sx (.node .paren ks) st = step sx .paren [] (autoTypeToks sx ks) st := by
   simp [stepT, kindOf]
-theorem stepT_brack (ks : List Tok) (st : St) : stepT (.node .brack ks) st = step .brack [] (autoTypeToks ks) st := by
+theorem stepT_brack (ks : List Tok) (st : St) : stepT sx (.node .brack ks) st = step sx .brack [] (autoTypeToks sx ks) st := by
   simp [stepT, kindOf]
 
 /-! ## single steps -/
 
 /-- a word at the start of an operand is a base type -/
 theorem step_name_start {w : Str} {st : St} (hw : w ≠ []) (h : Pre st) :
-    step .none w (.error .fuel) st = .ok (push (TyO.prim w) st) := by
+    step sx .none w (.error .fuel) st = .ok (push (TyO.prim w) st) := by
   obtain ⟨h1, h2⟩ := h
   have hl : w.length > 0 := List.length_pos_iff.mpr hw
   simp [step, hl, h1, h2, push, bind, Except.bind, pure, Except.pure]
@@ -65,7 +67,7 @@ theorem step_name_start {w : Str} {st : St} (hw : w ≠ []) (h : Pre st) :
 /-- a word after a complete operand is a postfix generic -/
 theorem step_name_post {w : Str} {st : St} {x : TyO} {S : List TyO} (hw : w ≠ [])
     (h1 : st.orFlag = -1) (h2 : st.stack = x :: S) (h3 : st.lastInfix = S.length) :
-    step .none w (.error .fuel) st =
+    step sx .none w (.error .fuel) st =
       .ok { st with stack := (if w = OPTIONAL then tyOptional x else .node (.generic w false) [x]) :: S } := by
   have hl : w.length > 0 := List.length_pos_iff.mpr hw
   by_cases ho : w = OPTIONAL
@@ -75,78 +77,78 @@ theorem step_name_post {w : Str} {st : St} {x : TyO} {S : List TyO} (hw : w ≠ 
   · simp [step, hl, h1, h2, h3, ho, bind, Except.bind, pure, Except.pure]
 
 theorem step_pvar {w : Str} {st : St} (h1 : st.orFlag = -1) :
-    step .poly w (.error .fuel) st = .ok (push (TyO.poly w) st) := by
+    step sx .poly w (.error .fuel) st = .ok (push (TyO.poly w) st) := by
   simp [step, h1, push, bind, Except.bind, pure, Except.pure]
 
 theorem step_paren {t : TyO} {st : St} (h1 : st.orFlag = -1) :
-    step .paren [] (.ok t) st = .ok (push t st) := by
+    step sx .paren [] (.ok t) st = .ok (push t st) := by
   simp [step, h1, push, bind, Except.bind, pure, Except.pure]
 
 theorem step_brack {n : Str} {r : TyO} {st : St} {S : List TyO} (h1 : st.orFlag = -1)
     (h2 : st.stack = TyO.poly n :: S) :
-    step .brack [] (.ok r) st = .ok { st with stack := .node (.fpoly n) [r] :: S } := by
+    step sx .brack [] (.ok r) st = .ok { st with stack := .node (.fpoly n) [r] :: S } := by
   simp [step, h1, h2, TyO.poly, bind, Except.bind, pure, Except.pure]
 
-theorem step_op {w : Str} {st : St} (h1 : st.orFlag = -1) :
-    step .infx w (.error .fuel) st =
+theorem step_op {w : Str} {st : St} (h1 : st.orFlag = -1) (h2 : st.stack.length = st.lastInfix + 1) :
+    step sx .infx w (.error .fuel) st =
       .ok { st with lastInfix := st.lastInfix + 1, infixStack := w :: st.infixStack } := by
-  simp [step, h1, bind, Except.bind, pure, Except.pure]
+  simp [step, h1, h2, bind, Except.bind, pure, Except.pure]
 
 theorem step_bar {st : St} :
-    step .or [] (.error .fuel) st = .ok { st with orFlag := 1 } := by
+    step sx .or [] (.error .fuel) st = .ok { st with orFlag := 1 } := by
   simp [step, bind, Except.bind, pure, Except.pure]
 
 /-- the operand right after `|` is combined with the one before it as soon as it is read -/
 theorem step_after_bar_name {w : Str} {st : St} {x : TyO} {S : List TyO} (hw : w ≠ [])
     (h1 : st.orFlag = 1) (h2 : st.stack = x :: S) :
-    step .none w (.error .fuel) st = .ok { st with orFlag := -1, stack := tyOr x (TyO.prim w) :: S } := by
+    step sx .none w (.error .fuel) st = .ok { st with orFlag := -1, stack := tyOr x (TyO.prim w) :: S } := by
   have hl : w.length > 0 := List.length_pos_iff.mpr hw
   simp [step, hl, h1, h2, bind, Except.bind, pure, Except.pure]
 
 theorem step_after_bar_pvar {w : Str} {st : St} {x : TyO} {S : List TyO}
     (h1 : st.orFlag = 1) (h2 : st.stack = x :: S) :
-    step .poly w (.error .fuel) st = .ok { st with orFlag := -1, stack := tyOr x (TyO.poly w) :: S } := by
+    step sx .poly w (.error .fuel) st = .ok { st with orFlag := -1, stack := tyOr x (TyO.poly w) :: S } := by
   simp [step, h1, h2, bind, Except.bind, pure, Except.pure]
 
 theorem step_after_bar_paren {t : TyO} {st : St} {x : TyO} {S : List TyO}
     (h1 : st.orFlag = 1) (h2 : st.stack = x :: S) :
-    step .paren [] (.ok t) st = .ok { st with orFlag := -1, stack := tyOr x t :: S } := by
+    step sx .paren [] (.ok t) st = .ok { st with orFlag := -1, stack := tyOr x t :: S } := by
   simp [step, h1, h2, bind, Except.bind, pure, Except.pure]
 
 /-! ## the induction over the notation -/
 
 /-- a postfix-level operand pushes its object -/
-def PropP (e : TyExpr) : Prop := ∀ st, Pre st → loopT (toksAt 1 e) st = .ok (push e.denote st)
+def PropP (sx : Bool) (e : TyExpr) : Prop := ∀ st, Pre st → loopT sx (toksAt 1 e) st = .ok (push e.denote st)
 /-- an infix chain leaves a stack that the final fold turns into its object -/
-def PropI (e : TyExpr) : Prop :=
-  ∀ st, Pre st → ∃ st', loopT (toksAt 0 e) st = .ok st' ∧ finish st' = finish (push e.denote st)
+def PropI (sx : Bool) (e : TyExpr) : Prop :=
+  ∀ st, Pre st → ∃ st', loopT sx (toksAt 0 e) st = .ok st' ∧ finish sx st' = finish sx (push e.denote st)
 /-- an operand right after `|` is merged into the union -/
-def PropB (e : TyExpr) : Prop :=
+def PropB (sx : Bool) (e : TyExpr) : Prop :=
   ∀ (st : St) (x : TyO) (S : List TyO), st.orFlag = 1 → st.stack = x :: S →
-    loopT (toksAt 3 e) st = .ok { st with orFlag := -1, stack := tyOr x e.denote :: S }
-def PropTop (e : TyExpr) : Prop := autoTypeToks (toksAt 0 e) = .ok e.denote
+    loopT sx (toksAt 3 e) st = .ok { st with orFlag := -1, stack := tyOr x e.denote :: S }
+def PropTop (sx : Bool) (e : TyExpr) : Prop := autoTypeToks sx (toksAt 0 e) = .ok e.denote
 
-theorem top_of_I {e : TyExpr} (h : PropI e) : PropTop e := by
+theorem top_of_I {e : TyExpr} (h : PropI sx e) : PropTop sx e := by
   obtain ⟨st', h1, h2⟩ := h {} ⟨rfl, rfl⟩
   unfold PropTop
   rw [autoTypeToks_ok h1, h2]
   simp [finish, push, finishLoop]
 
-theorem I_of_P {e : TyExpr} (heq : toksAt 0 e = toksAt 1 e) (h : PropP e) : PropI e := by
+theorem I_of_P {e : TyExpr} (heq : toksAt 0 e = toksAt 1 e) (h : PropP sx e) : PropI sx e := by
   intro st hst
   exact ⟨push e.denote st, by rw [heq]; exact h st hst, rfl⟩
 
-theorem P_of_top {e : TyExpr} (heq : toksAt 1 e = [.node .paren (toksAt 0 e)]) (h : PropTop e) : PropP e := by
+theorem P_of_top {e : TyExpr} (heq : toksAt 1 e = [.node .paren (toksAt 0 e)]) (h : PropTop sx e) : PropP sx e := by
   intro st hst
   rw [heq]
-  have : stepT (.node .paren (toksAt 0 e)) st = .ok (push e.denote st) := by
+  have : stepT sx (.node .paren (toksAt 0 e)) st = .ok (push e.denote st) := by
     rw [stepT_paren, h]; exact step_paren hst.1
   rw [loopT_cons_ok this, loopT_nil]
 
-theorem B_of_top {e : TyExpr} (heq : toksAt 3 e = [.node .paren (toksAt 0 e)]) (h : PropTop e) : PropB e := by
+theorem B_of_top {e : TyExpr} (heq : toksAt 3 e = [.node .paren (toksAt 0 e)]) (h : PropTop sx e) : PropB sx e := by
   intro st x S h1 h2
   rw [heq]
-  have : stepT (.node .paren (toksAt 0 e)) st = .ok { st with orFlag := -1, stack := tyOr x e.denote :: S } := by
+  have : stepT sx (.node .paren (toksAt 0 e)) st = .ok { st with orFlag := -1, stack := tyOr x e.denote :: S } := by
     rw [stepT_paren, h]; exact step_after_bar_paren h1 h2
   rw [loopT_cons_ok this, loopT_nil]
 
@@ -157,43 +159,43 @@ theorem pre_push {t : TyO} {st : St} (h : Pre st) :
     (push t st).orFlag = -1 ∧ (push t st).stack = t :: st.stack ∧ (push t st).lastInfix = st.stack.length :=
   ⟨h.1, rfl, h.2⟩
 
-theorem parse_all (e : TyExpr) (hwf : e.wf = true) : PropP e ∧ PropI e ∧ PropB e := by
+theorem parse_all (e : TyExpr) (hwf : e.wf = true) : PropP sx e ∧ PropI sx e ∧ PropB sx e := by
   induction e with
   | prim n =>
     have hn := goodName_ne_nil (by simpa [wf] using hwf)
-    have hP : PropP (.prim n) := by
+    have hP : PropP sx (.prim n) := by
       intro st hst
-      have : stepT (.node (.name n) []) st = .ok (push (TyO.prim n) st) := by
+      have : stepT sx (.node (.name n) []) st = .ok (push (TyO.prim n) st) := by
         rw [stepT_name]; exact step_name_start hn hst
       simp only [toksAt]
       rw [loopT_cons_ok this, loopT_nil]; rfl
     refine ⟨hP, I_of_P (by simp [toksAt]) hP, ?_⟩
     intro st x S h1 h2
-    have : stepT (.node (.name n) []) st = .ok { st with orFlag := -1, stack := tyOr x (TyO.prim n) :: S } := by
+    have : stepT sx (.node (.name n) []) st = .ok { st with orFlag := -1, stack := tyOr x (TyO.prim n) :: S } := by
       rw [stepT_name]; exact step_after_bar_name hn h1 h2
     simp only [toksAt]
     rw [loopT_cons_ok this, loopT_nil]; rfl
   | var n =>
-    have hP : PropP (.var n) := by
+    have hP : PropP sx (.var n) := by
       intro st hst
-      have : stepT (.node (.pvar n) []) st = .ok (push (TyO.poly n) st) := by
+      have : stepT sx (.node (.pvar n) []) st = .ok (push (TyO.poly n) st) := by
         rw [stepT_pvar]; exact step_pvar hst.1
       simp only [toksAt]
       rw [loopT_cons_ok this, loopT_nil]; rfl
     refine ⟨hP, I_of_P (by simp [toksAt]) hP, ?_⟩
     intro st x S h1 h2
-    have : stepT (.node (.pvar n) []) st = .ok { st with orFlag := -1, stack := tyOr x (TyO.poly n) :: S } := by
+    have : stepT sx (.node (.pvar n) []) st = .ok { st with orFlag := -1, stack := tyOr x (TyO.poly n) :: S } := by
       rw [stepT_pvar]; exact step_after_bar_pvar h1 h2
     simp only [toksAt]
     rw [loopT_cons_ok this, loopT_nil]; rfl
   | fvar n r ih =>
     have hr : r.wf = true := by simp [wf] at hwf; exact hwf.2
     have hTopR := top_of_I (ih hr).2.1
-    have hP : PropP (.fvar n r) := by
+    have hP : PropP sx (.fvar n r) := by
       intro st hst
-      have s1 : stepT (.node (.pvar n) []) st = .ok (push (TyO.poly n) st) := by
+      have s1 : stepT sx (.node (.pvar n) []) st = .ok (push (TyO.poly n) st) := by
         rw [stepT_pvar]; exact step_pvar hst.1
-      have s2 : stepT (.node .brack (toksAt 0 r)) (push (TyO.poly n) st)
+      have s2 : stepT sx (.node .brack (toksAt 0 r)) (push (TyO.poly n) st)
           = .ok { (push (TyO.poly n) st) with stack := .node (.fpoly n) [r.denote] :: st.stack } := by
         rw [stepT_brack, hTopR]; exact step_brack hst.1 rfl
       simp only [toksAt, wrap, Nat.reduceLeDiff, decide_true, if_true]
@@ -205,14 +207,14 @@ theorem parse_all (e : TyExpr) (hwf : e.wf = true) : PropP e ∧ PropI e ∧ Pro
       simp [wf] at hwf; exact ⟨hwf.1.1, hwf.1.2, hwf.2⟩
     have hPa := (iha hw.2.1).1
     have hIb := (ihb hw.2.2).2.1
-    have hI : PropI (.infx op a b) := by
+    have hI : PropI sx (.infx op a b) := by
       intro st hst
       have l1 := hPa st hst
       obtain ⟨q1, q2, q3⟩ := pre_push (t := a.denote) hst
       let st2 : St := { stack := a.denote :: st.stack, lastInfix := st.lastInfix + 1,
                         infixStack := op :: st.infixStack, orFlag := st.orFlag }
-      have s2 : stepT (.node (.op op) []) (push a.denote st) = .ok st2 := by
-        rw [stepT_op, step_op q1]; rfl
+      have s2 : stepT sx (.node (.op op) []) (push a.denote st) = .ok st2 := by
+        rw [stepT_op, step_op q1 (by rw [q2, q3]; rfl)]; rfl
       have hpre2 : Pre st2 := ⟨hst.1, by simp [st2, hst.2]⟩
       obtain ⟨st', h1, h2⟩ := hIb st2 hpre2
       refine ⟨st', ?_, ?_⟩
@@ -228,11 +230,11 @@ theorem parse_all (e : TyExpr) (hwf : e.wf = true) : PropP e ∧ PropI e ∧ Pro
       simp [wf] at hwf; exact ⟨hwf.1.1, hwf.1.2, hwf.2⟩
     have hn := goodName_ne_nil hw.1
     have hPa := (iha hw.2.2).1
-    have hP : PropP (.generic n a) := by
+    have hP : PropP sx (.generic n a) := by
       intro st hst
       have l1 := hPa st hst
       obtain ⟨q1, q2, q3⟩ := pre_push (t := a.denote) hst
-      have s2 := step_name_post (w := n) hn q1 q2 (by rw [q3])
+      have s2 := step_name_post (sx := sx) (w := n) hn q1 q2 (by rw [q3])
       rw [← stepT_name] at s2
       simp only [toksAt, wrap, Nat.le_refl, decide_true, if_true]
       rw [loopT_append_ok l1, loopT_cons_ok s2, loopT_nil]
@@ -242,11 +244,11 @@ theorem parse_all (e : TyExpr) (hwf : e.wf = true) : PropP e ∧ PropI e ∧ Pro
   | optional a iha =>
     have hw : a.wf = true := by simpa [wf] using hwf
     have hPa := (iha hw).1
-    have hP : PropP (.optional a) := by
+    have hP : PropP sx (.optional a) := by
       intro st hst
       have l1 := hPa st hst
       obtain ⟨q1, q2, q3⟩ := pre_push (t := a.denote) hst
-      have s2 := step_name_post (w := OPTIONAL) (by decide) q1 q2 (by rw [q3])
+      have s2 := step_name_post (sx := sx) (w := OPTIONAL) (by decide) q1 q2 (by rw [q3])
       rw [← stepT_name] at s2
       simp only [toksAt, wrap, Nat.le_refl, decide_true, if_true]
       rw [loopT_append_ok l1, loopT_cons_ok s2, loopT_nil]
@@ -257,11 +259,11 @@ theorem parse_all (e : TyExpr) (hwf : e.wf = true) : PropP e ∧ PropI e ∧ Pro
     have hw : a.wf = true ∧ b.wf = true := by simpa [wf] using hwf
     have hPa := (iha hw.1).1
     have hBb := (ihb hw.2).2.2
-    have hP : PropP (.union a b) := by
+    have hP : PropP sx (.union a b) := by
       intro st hst
       have l1 := hPa st hst
       obtain ⟨q1, q2, q3⟩ := pre_push (t := a.denote) hst
-      have s2 : stepT (.node .bar []) (push a.denote st) = .ok { (push a.denote st) with orFlag := 1 } := by
+      have s2 : stepT sx (.node .bar []) (push a.denote st) = .ok { (push a.denote st) with orFlag := 1 } := by
         rw [stepT_bar]; exact step_bar
       have l3 := hBb { (push a.denote st) with orFlag := 1 } a.denote st.stack rfl rfl
       simp only [toksAt, wrap, Nat.le_refl, decide_true, if_true, List.append_assoc]
@@ -269,5 +271,100 @@ theorem parse_all (e : TyExpr) (hwf : e.wf = true) : PropP e ∧ PropI e ∧ Pro
       simp [push, denote, hst.1]
     have hI := I_of_P (e := .union a b) (by simp [toksAt, wrap]) hP
     exact ⟨hP, hI, B_of_top (by simp [toksAt, wrap]) (top_of_I hI)⟩
+
+/-! ## the state after an infix chain, and the malformed streams of finding C15-F4 -/
+
+/-- no `|` is pending and exactly one more operand than operators has been read -/
+def Done (st : St) : Prop := st.orFlag = -1 ∧ st.stack.length = st.lastInfix + 1
+
+theorem done_push {t : TyO} {st : St} (h : Pre st) : Done (push t st) :=
+  ⟨h.1, by simp [push, h.2]⟩
+
+theorem done_of_P {e : TyExpr} (heq : toksAt 0 e = toksAt 1 e) (hP : PropP sx e) :
+    ∀ st, Pre st → ∀ st', loopT sx (toksAt 0 e) st = .ok st' → Done st' := by
+  intro st hst st' h
+  rw [heq, hP st hst] at h
+  cases h
+  exact done_push hst
+
+theorem chain_done (e : TyExpr) (hwf : e.wf = true) :
+    ∀ st, Pre st → ∀ st', loopT sx (toksAt 0 e) st = .ok st' → Done st' := by
+  induction e with
+  | prim n => exact done_of_P (by simp [toksAt]) (parse_all _ hwf).1
+  | var n => exact done_of_P (by simp [toksAt]) (parse_all _ hwf).1
+  | fvar n r _ => exact done_of_P (by simp [toksAt, wrap]) (parse_all _ hwf).1
+  | generic n a _ => exact done_of_P (by simp [toksAt, wrap]) (parse_all _ hwf).1
+  | optional a _ => exact done_of_P (by simp [toksAt, wrap]) (parse_all _ hwf).1
+  | union a b _ _ => exact done_of_P (by simp [toksAt, wrap]) (parse_all _ hwf).1
+  | infx op a b _ ihb =>
+    intro st hst st' h
+    have hw : a.wf = true ∧ b.wf = true := by
+      simp [wf] at hwf; exact ⟨hwf.1.2, hwf.2⟩
+    have l1 := (parse_all (sx := sx) a hw.1).1 st hst
+    obtain ⟨q1, q2, q3⟩ := pre_push (t := a.denote) hst
+    let st2 : St := { stack := a.denote :: st.stack, lastInfix := st.lastInfix + 1,
+                      infixStack := op :: st.infixStack, orFlag := st.orFlag }
+    have s2 : stepT sx (.node (.op op) []) (push a.denote st) = .ok st2 := by
+      rw [stepT_op, step_op q1 (by rw [q2, q3]; rfl)]; rfl
+    have hpre2 : Pre st2 := ⟨hst.1, by simp [st2, hst.2]⟩
+    simp only [toksAt, wrap, Nat.le_refl, decide_true, if_true, List.append_assoc] at h
+    rw [loopT_append_ok l1, List.cons_append, List.nil_append, loopT_cons_ok s2] at h
+    exact ihb hw.2 st2 hpre2 st' h
+
+/-- the state after the tokens of a whole expression -/
+theorem toks_done (e : TyExpr) (hwf : e.wf = true) :
+    ∃ st', loopT sx e.toks {} = .ok st' ∧ Done st' ∧ st'.stack ≠ [] := by
+  obtain ⟨st', h1, _⟩ := (parse_all (sx := sx) e hwf).2.1 {} ⟨rfl, rfl⟩
+  have hd := chain_done (sx := sx) e hwf {} ⟨rfl, rfl⟩ st' h1
+  refine ⟨st', h1, hd, ?_⟩
+  intro hnil
+  have := hd.2
+  rw [hnil] at this
+  simp at this
+
+/-- with the repair, a stream that ends with an infix operator after an expression is rejected -/
+theorem reject_op_after (e : TyExpr) (hwf : e.wf = true) (w : Str) :
+    autoTypeToks true (e.toks ++ [.node (.op w) []]) = .error .assertion := by
+  obtain ⟨st', h1, hd, hne⟩ := toks_done (sx := true) e hwf
+  have s2 : stepT true (.node (.op w) []) st' =
+      .ok { st' with lastInfix := st'.lastInfix + 1, infixStack := w :: st'.infixStack } := by
+    rw [stepT_op]; exact step_op hd.1 hd.2
+  have hl : loopT true (e.toks ++ [.node (.op w) []]) {} =
+      .ok { st' with lastInfix := st'.lastInfix + 1, infixStack := w :: st'.infixStack } := by
+    rw [loopT_append_ok h1, loopT_cons_ok s2, loopT_nil]
+  rw [autoTypeToks_ok hl]
+  simp [finish, hd.2]
+
+/-- with the repair, a stream that starts with an infix operator is rejected, whatever follows -/
+theorem reject_op_before (w : Str) (ts : List Tok) :
+    autoTypeToks true (.node (.op w) [] :: ts) = .error .assertion := by
+  have s1 : stepT true (.node (.op w) []) {} = .error .assertion := by
+    rw [stepT_op]; simp [step, bind, Except.bind]
+  simp [autoTypeToks, loopT_cons_err s1]
+
+/-- with the repair, two infix operators in a row are rejected, whatever follows -/
+theorem reject_op_op (e : TyExpr) (hwf : e.wf = true) (w1 w2 : Str) (ts : List Tok) :
+    autoTypeToks true (e.toks ++ .node (.op w1) [] :: .node (.op w2) [] :: ts) = .error .assertion := by
+  obtain ⟨st', h1, hd, _⟩ := toks_done (sx := true) e hwf
+  have s2 : stepT true (.node (.op w1) []) st' =
+      .ok { st' with lastInfix := st'.lastInfix + 1, infixStack := w1 :: st'.infixStack } := by
+    rw [stepT_op]; exact step_op hd.1 hd.2
+  have s3 : stepT true (.node (.op w2) [])
+      { st' with lastInfix := st'.lastInfix + 1, infixStack := w1 :: st'.infixStack } =
+      .error .assertion := by
+    rw [stepT_op]; simp [step, bind, Except.bind, hd.2]
+  simp [autoTypeToks, loopT_append_ok h1, loopT_cons_ok s2, loopT_cons_err s3]
+
+/-- with the repair, a stream that ends with `|` after an expression is rejected -/
+theorem reject_bar_after (e : TyExpr) (hwf : e.wf = true) :
+    autoTypeToks true (e.toks ++ [.node .bar []]) = .error .assertion := by
+  obtain ⟨st', h1, hd, hne⟩ := toks_done (sx := true) e hwf
+  have s2 : stepT true (.node .bar []) st' = .ok { st' with orFlag := 1 } := by
+    rw [stepT_bar]; exact step_bar
+  have hl : loopT true (e.toks ++ [.node .bar []]) {} = .ok { st' with orFlag := 1 } := by
+    rw [loopT_append_ok h1, loopT_cons_ok s2, loopT_nil]
+  rw [autoTypeToks_ok hl]
+  have hlen : st'.stack.length ≠ 0 := fun h => hne (List.length_eq_zero_iff.mp h)
+  simp [finish, hlen]
 
 end PS.C15
